@@ -6,7 +6,8 @@ right access class.
 2. PathWalk_Gen: TLC decodes/enumerates the cases (walk family W, open-flag family K, argument family A,
    memory-placement family M: where the string lies relative to a page boundary of the caller's memory,
    name family N: names that look like something else -- " (deleted)" suffix, leading ".." -- in the string,
-   the cwd, the directory behind a descriptor).
+   the cwd, the directory behind a descriptor; link family L; dynamic family D: the same call before and
+   while two nodes of the tree are exchanged, in one traced run).
 3. `pathwalk run`: the forests are materialised; the C probe runs the script twice: directly, reporting the
    kernel's own answer for each (descriptor, name) pair, and under the REAL ptrace runner with a recording
    handler, performing every scripted raw system call.
@@ -31,10 +32,13 @@ def gen_cfg(ctx, rest, part, parts, kflags):
   KFlags = {%s}
   KKinds = {1}
   AForests = %s
+  DForests = %s
+  DFull = %s
 INIT Init
 NEXT Next
 """ % (ctx.seed % 1000000, "TRUE" if rest else "FALSE", part, parts, ",".join('"%s"' % k for k in kflags),
-       ctx.pick("{1}", "{1, 3, 7}"))
+       ctx.pick("{1}", "{1, 3, 7}"), ctx.pick("{1, 2, 4, 8}", "{1, 2, 3, 4, 5, 6, 7, 8}") if rest else "{}",
+       ctx.pick("FALSE", "TRUE"))
 
 
 def parallel(jobs):
@@ -104,6 +108,8 @@ def key_of(verdict, o, arg):
     if not ps["abs"]:
         where += list(d["dirp"]) if d["lo"] == "fd" else list(c["cwd"])
     names = ":names" if special(where) else ""
+    if c.get("swap", {}).get("p"):
+        names += ":exchanged"
     return "%s:%s:arg%d:%s:%s%s%s" % (verdict, c["sc"], arg, dc, feature(ps), place, names)
 
 
@@ -233,7 +239,7 @@ def report(ctx, obs, verdicts, fam):
         "calls that do not follow a final symlink: the link's own canonical path or its target's is accepted; not judged on the path when the target cannot be resolved",
         "procfs aliases are judged where the kernel resolves them into the forest (/proc/self/cwd|root|fd/N/..., /proc/thread-self/cwd/... of a single-threaded program); names that stay under /proc (checkProcPath's dangerous/allowed classification) and AT_EMPTY_PATH are outside the forest model",
         "the placement of the string in the caller's memory (page boundary, unmapped next page) and runs of slashes do not change the kernel's resolution (cross-checked: the truth run places the strings identically)",
-        "the handler answers 'ban' for the scripted call so the forest is never modified; the presented path is computed before the answer",
+        "the handler answers 'ban' for the scripted call, so the forest changes only through the generated exchanges (performed by the probe outside the markers, undone after the call); the presented path is computed before the answer",
     ]
     if model_bad:
         o, b = model_bad[0]
